@@ -122,7 +122,9 @@ func (h *Hub) ServeHTTP(w http.ResponseWriter, r *http.Request) {
 	remoteService = service
 
 	// don't allow a second connection
+	h.muxConSetup.Lock()
 	if !h.keepThisConnection(conn, true, remoteService) {
+		h.muxConSetup.Unlock()
 		_ = conn.Close()
 		return
 	}
@@ -130,9 +132,12 @@ func (h *Hub) ServeHTTP(w http.ResponseWriter, r *http.Request) {
 	dataHandler := ws.NewWebsocketConnection(conn, remoteService.SKI())
 	shipConnection := ship.NewConnectionHandler(h, dataHandler, ship.ShipRoleServer,
 		h.localService.ShipID(), remoteService.SKI(), remoteService.ShipID())
-	shipConnection.Run()
 
+	// register before anything can happen on the connection, so its end is always accounted for
 	h.registerConnection(shipConnection)
+	h.muxConSetup.Unlock()
+
+	shipConnection.Run()
 }
 
 // return if there is a connection for a SKI
@@ -206,7 +211,9 @@ func (h *Hub) connectFoundService(remoteService *api.ServiceDetails, host, port,
 		return errors.New(errorString)
 	}
 
+	h.muxConSetup.Lock()
 	if !h.keepThisConnection(conn, false, remoteService) {
+		h.muxConSetup.Unlock()
 		errorString := fmt.Sprintf("closing connection to %s: ignoring this connection", remoteService.SKI())
 		return errors.New(errorString)
 	}
@@ -214,9 +221,12 @@ func (h *Hub) connectFoundService(remoteService *api.ServiceDetails, host, port,
 	dataHandler := ws.NewWebsocketConnection(conn, remoteService.SKI())
 	shipConnection := ship.NewConnectionHandler(h, dataHandler, ship.ShipRoleClient,
 		h.localService.ShipID(), remoteService.SKI(), remoteService.ShipID())
-	shipConnection.Run()
 
+	// register before anything can happen on the connection, so its end is always accounted for
 	h.registerConnection(shipConnection)
+	h.muxConSetup.Unlock()
+
+	shipConnection.Run()
 
 	return nil
 }
